@@ -123,7 +123,8 @@ def documented (l r : Cls) (op : BOp) : Spec :=
   else if l.isSpatialVec && r.isSpatialVec then
     (if l == r && (op == .add || op == .sub) then .result (.cls l)
      else if op == .matmul then
-       (if l == .SVel && r == .SVel then .result (.cls .SAcc) else if l == .SVel && r == .SFor then .result (.cls .SFor) else .unspecified)
+       (if l == .SVel && r == .SVel then .result (.cls .SAcc) else if l == .SVel && r == .SFor then .result (.cls .SFor)
+        else if l == .SVel then .unspecified else .mustRaise)      -- only a velocity has a cross product
      else .mustRaise)
   else if l == .SIne then
     (if r == .SIne then (if op == .add then .result (.cls .SIne) else .unspecified)
